@@ -66,6 +66,10 @@ def closure(fnames):
     return order
 
 
+PORTS_C = "unsigned char * const PORT1 = 0x10;\nunsigned char * const PORT2 = 0x11;\nunsigned char * const PORT3 = 0x12;\n"
+PORT_DECLS = [dict(name="PORT%d" % i, kind="s", w=8, sg=False, n=1, io=True) for i in (1, 2, 3)] + [dict(name="DUMMY", kind="s", w=8, sg=False, n=1, io=False, hidden=True)]
+
+
 def header(decl_names=None, fnames=(), inline=(), place=None):
     """place: name -> memory qualifier prefix ("superchip", "ramchip", "bank1", ...)"""
     ds = [d for d in DECLS if decl_names is None or d["name"] in decl_names]
@@ -75,9 +79,9 @@ def header(decl_names=None, fnames=(), inline=(), place=None):
     return s
 
 
-def source(body, fnames=None, inline=(), decl_names=None, place=None):
+def source(body, fnames=None, inline=(), decl_names=None, place=None, ports=False):
     fnames = sorted(render.calls_in(body)) if fnames is None else fnames
-    return header(decl_names, fnames, inline, place) + "void main() {\n" + render.stmts(body) + "}\n"
+    return (PORTS_C if ports else "") + header(decl_names, fnames, inline, place) + "void main() {\n" + render.stmts(body) + "}\n"
 
 
 def vt_for(addr, fnames=(), extra=None):
@@ -93,6 +97,8 @@ def vt_for(addr, fnames=(), extra=None):
     for e in (extra or []):
         if e["name"] in addr:
             vt[e["name"]] = dict(kind=e["kind"], w=e["w"], sg=e["sg"], n=e["n"], addr=addr[e["name"]], io=e.get("io", False))
+            if e.get("hidden"):
+                vt[e["name"]]["hidden"] = True
     vt["X"] = dict(kind="s", w=8, sg=False, n=1, addr=-1, io=False)
     vt["Y"] = dict(kind="s", w=8, sg=False, n=1, addr=-2, io=False)
     return vt
